@@ -157,7 +157,7 @@ def gen_scene(rng, idx):
 
 def gen_cases(ctx):
     cases = gen_pairs(ctx)
-    for i in range(ctx.pick(6, 40)):
+    for i in range(ctx.pick(4, 40)):
         cases.append(gen_scene(ctx.rng, i))
     return cases
 
@@ -166,7 +166,7 @@ def run_cases(ctx, cases):
     p = [c for c in cases if c["kind"] == "pairs"]
     s = [c for c in cases if c["kind"] == "scene"]
     op = core.run_impl(IMPL, {"cases": p})["outs"] if p else []
-    os_ = core.run_impl_sharded(IMPL, s, shard=min(len(s), ctx.pick(3, 6))) if s else []
+    os_ = core.run_impl_sharded(IMPL, s, shard=min(len(s), ctx.pick(4, 6))) if s else []
     ip, is_ = iter(op), iter(os_)
     return [next(ip) if c["kind"] == "pairs" else next(is_) for c in cases]
 
